@@ -66,6 +66,9 @@ def run(name, pids, tier="quick"):
     rc, out = sh(f"git -C {REPO} apply {d}/patch.diff")
     assert rc == 0, out
     results = {}
+    # the committed evidence describes runs on the unchanged tree: keep it
+    ev = {pid: os.path.join(VERIF, "evidence", pid + ".json") for pid in pids}
+    saved = {pid: open(f, "rb").read() for pid, f in ev.items() if os.path.exists(f)}
     try:
         for pid in pids:
             t0 = time.time()
@@ -75,6 +78,9 @@ def run(name, pids, tier="quick"):
                             "with_input": any(not l.rstrip().endswith("no-failing-input-found") for l in viol)}
     finally:
         sh(f"git -C {REPO} checkout -- .")
+        for pid, data in saved.items():
+            with open(ev[pid], "wb") as f:
+                f.write(data)
     print(name, json.dumps(results))
     return results
 
